@@ -85,3 +85,30 @@ class StepBudget:
         for ev in (E.PY_START, E.JUMP, E.BRANCH):
             mon.register_callback(TOOL, ev, None)
         mon.free_tool_id(TOOL)
+
+
+# ------------------------------------------------------------------ CPU budget for reader calls (C14: read() returns)
+
+def _module_alarm(signum, frame):
+    raise CpuBudgetExceeded("the call used more CPU time than its budget")
+
+
+def arm(seconds: float) -> bool:
+    """Start a CPU-time budget for the call that follows (main thread only). The handler raises CpuBudgetExceeded inside the call."""
+    import threading
+
+    if threading.current_thread() is not threading.main_thread():
+        return False
+    if signal.getsignal(signal.SIGVTALRM) in (signal.SIG_DFL, signal.SIG_IGN, None):
+        signal.signal(signal.SIGVTALRM, _module_alarm)
+    signal.setitimer(signal.ITIMER_VIRTUAL, seconds)
+    return True
+
+
+def disarm() -> None:
+    signal.setitimer(signal.ITIMER_VIRTUAL, 0)
+
+
+def read_budget(n_octets: int) -> float:
+    """CPU seconds allowed for one read() call: the readers need about 2 microseconds per octet; 6 s + 20 us per octet is generous for any chunk."""
+    return CPU_LIMIT_S + 20e-6 * n_octets
